@@ -98,7 +98,7 @@ def run_e2(res, tier):
         if k1 == k2 and k1 != "reply" and not handlers and e[6]:
             bad("positive control: own-kind document ran no handler (%s)" % o.get("err"), "control")
     res.parts["e2_cases"] = len(cases)
-    res.sample({"case": cases[5], "observation": obs[5]})
+    res.sample(lambda: {"case": cases[5], "observation": obs[5]})
 
 
 def run_e1(res, tier):
